@@ -5,7 +5,6 @@ import json, subprocess, sys
 from pathlib import Path
 pid = sys.argv[1]
 extra = sys.argv[2] if len(sys.argv) > 2 else ""
-n1, n2 = (sys.argv[3], sys.argv[4]) if len(sys.argv) > 4 else ("m1", "m2")
 prop = next(json.loads(l) for l in open('/verif/properties.jsonl') if l.strip() and json.loads(l)['id'] == pid)
 w = f"/tmp/mut/{pid}"
 Path("/tmp/mut").mkdir(exist_ok=True)
@@ -26,7 +25,7 @@ A semantic property of the library that users rely on:
 "{pid} — {prop['title']}. {prop['statement']} (Quantified over: {prop['quantifier']['text']})"
 Relevant code: {files}. Mechanisms: {mech}
 
-Task: produce TWO different, independent source changes ("{n1}" and "{n2}") to the library (files under pixman/ only), each of which
+Task: produce TWO different, independent source changes ("m1" and "m2") to the library (files under pixman/ only), each of which
  1. breaks the property above (for some inputs/histories/schedules the library now violates it while the unchanged tree does not),
  2. still compiles and still passes ALL 33 existing tests (actually run the full suite with the change applied: 33 Ok / 0 Fail),
  3. is realistic — the kind of slip a maintainer makes in a refactor or optimisation (wrong comparison, off-by-one, wrong variable,
@@ -36,7 +35,7 @@ Task: produce TWO different, independent source changes ("{n1}" and "{n2}") to t
     operations, an unusual input, or two cooperating sites that each look fine alone — so ordinary use and the existing tests do not
     expose it at once. Make the two changes different in kind and in location.
 {extra}
-For each change write into {w}-out/{n1}/ (resp. {n2}/):
+For each change write into {w}-out/m1/ (resp. m2/):
  * patch.diff — `git diff` relative to the unchanged worktree (must apply with `git apply` at the worktree root);
  * demo.c — a small stand-alone C program using the public pixman API (#include <pixman.h>; pthreads / a malloc-failing wrapper
    via dlsym or --wrap-free techniques inside the single file are fine if the property needs them), exiting 0 when the property holds
@@ -45,7 +44,7 @@ For each change write into {w}-out/{n1}/ (resp. {n2}/):
    and run with a 120 s timeout (a hang counts as failure → make the demo detect hangs itself with alarm() and exit 1).
  * README.txt — 5–15 lines: what was changed, why it breaks the property, exactly what it needs to manifest, the commands you ran and
    their results (test totals with the change; demo exit codes with and without).
-Leave the worktree clean at the end (`git checkout -- .`; `rm -rf _b`). Final message: for each of {n1}, {n2} one paragraph (what/where,
+Leave the worktree clean at the end (`git checkout -- .`; `rm -rf _b`). Final message: for each of m1, m2 one paragraph (what/where,
 what it needs to manifest, test totals, demo results).
 """
 Path(f"{w}-task.md").write_text(t)
